@@ -30,6 +30,9 @@ PAIRS = {
     "d5": dict(short_flags="lz", short_args="t", env=[]),
     "d6": dict(short_flags="v", short_args="n", env=[]),
     "d7": dict(short_flags="", short_args="", env=[]),
+    "d8": dict(short_flags="", short_args="", env=[]),
+    "d9": dict(short_flags="", short_args="", env=[]),
+    "d10": dict(short_flags="", short_args="", env=[]),
 }
 
 
